@@ -10,13 +10,13 @@ CHECKS = {
          "Coq proof about the executable model; tie = extracted model diffed against the real client under a simulated socket; independent expected-events oracle"),
  "C02": ("Segmentation lemma proved for the generic coroutine parser and lifted through the connection model for all chunkings; metamorphic + differential runs of the real client on all cut sets of short streams and many cut sets of long ones.",
          "Coq proof (pull_split / drive_split) + metamorphic differential testing of the tie"),
- "C03": ("Round-trip theorem Frame.build vs. a reference RFC 6455 server decoder for all opcodes/keys/payloads; API-level theorem on the connection model; every sendall of the real client decoded by an independent decoder and compared byte-for-byte with the model.",
+ "C03": ("Round-trip theorem Frame.build vs. a reference RFC 6455 server decoder for all opcodes/keys/payloads; a regenerated table of the frames the running code builds on both sides of every length-form boundary, proved equal to the model's; API-level theorem on the connection model; every sendall of the real client decoded by an independent decoder and compared byte-for-byte with the model.",
          "Coq proof of the codec round-trip; correspondence on every payload length around the class boundaries"),
  "C04": ("Regenerated proof obligations for Frame.validate / is_reserved / Status.invalid_codes; whole-stream violation theorems on the model (after any conforming prefix: out-of-place data frames, every header-level violation in any length form, lengths >= 2^63, masked frames, malformed Close payloads each give exactly one ProtocolError, fail the feed and deliver nothing further); exhaustive two-byte header sweep and generated prefix x violation x rest scenarios on the real client.",
          "Coq proof + regenerated finite tables checked by vm_compute + exhaustive header sweep of the tie"),
  "C05": ("The validator's state graph is regenerated from the running code and proved equal to the model automaton, which is proved equivalent to the RFC 3629 grammar (accept <-> well-formed, reject <-> non-viable prefix) for all byte strings; stream-level theorems (after any conforming prefix, text payload bytes with no well-formed continuation fail the feed at once with one critical ProtocolError; an ill-formed complete text frame is never delivered); delivery and fail-fast through the real session loop.",
          "Coq proof over all byte strings via automaton/grammar equivalence; regenerated DFA tie by vm_compute over 9x256"),
- "C07": ("Monitor-automaton theorem on the session model for all environments and strategies; exhaustive bounded enumeration of server steps x application reactions on the real loop, full traces compared with the model.",
+ "C07": ("Monitor-automaton theorem on the session model for all environments and strategies; exhaustive bounded enumeration of server steps x application reactions on the real loop, full traces compared with the model; handlers that take time under a selector that honours its timeout.",
          "Coq proof by invariant over the run loop + exhaustive bounded correspondence"),
  "C08": ("Closing-handshake theorems on the model (single Close and nothing after it in every history; whole-stream theorems for both directions: the server's Close after any conforming prefix is answered by exactly one echo with its payload, the server's answer to the client's Close yields Closed and writes nothing); all small orders and random histories on the real client judged on the decoded wire.",
          "Coq proof by invariant + correspondence"),
@@ -26,7 +26,7 @@ CHECKS = {
          "Coq proof over all yield sites of the model + exhaustive abandonment runs"),
  "C14": ("Pong theorem on the model (each Ping event is immediately preceded by its Pong while no Close was sent); streams with pings anywhere on the real client.",
          "Coq proof + correspondence"),
- "C15": ("Timer theorems over integer ticks (poll spacing, ping periods, unresponsive, close timeout); the real loop on a virtual clock over the full parameter grid, time-stamped traces compared with the model and judged against the bounds.",
+ "C15": ("Timer theorems over integer ticks (poll spacing, ping periods, unresponsive, close timeout), also with the wake-up hypothesis derived from a selector that honours its timeout; the real loop on a virtual clock, under scripted wake-ups and under a simulated selector that sleeps exactly as long as it is asked to, over the full parameter grid, time-stamped traces compared with the model and judged against the bounds.",
          "Coq proof over Z ticks + virtual-clock correspondence"),
  "C06": ("Bookkeeping theorems on the model with zlib as an oracle (which context sees which bytes in which order on the sending and on the receiving side of the connection model, resets, a new context after a stream that ended, RSV1 placement, parameter parsing); an independent RFC 7692 peer built on plain zlib objects against the real client for all 256 parameter combinations. Partial: DEFLATE itself is not verified.",
          "Coq proof of the bookkeeping with zlib as a Section-variable oracle + differential testing against an independent RFC 7692 peer"),
@@ -34,9 +34,9 @@ CHECKS = {
          "Coq proof over the URL, digest and response-parser model + correspondence; known finding KF-D"),
  "C11": ("Theorems on the action-level concurrency model for all schedules (whole frames, per-thread order, compression order = wire order); the real methods on real threads under a deterministic scheduler, all schedules up to a preemption bound, compared action-by-action with the model.",
          "Coq proof over all schedules of the action-level model + systematic schedule enumeration of the real code"),
- "C12": ("Theorems on the same concurrency model (at most one Close frame, no data frame after it, losers fail); exhaustive schedule enumeration of close() against sends, closes and server-Close processing on the real code.",
+ "C12": ("Theorems on the same concurrency model (at most one Close frame, no data frame after it, losers fail); exhaustive schedule enumeration of close() against sends, closes and server-Close processing on the real code, at action level and at source-line level with one and two preemptions.",
          "Coq proof over all schedules of the action-level model + systematic schedule enumeration of the real code"),
- "C17": ("In the model connect() replaces the whole per-connection record, so the theorem holds by construction; its content -- nothing mutable survives connect() -- is tied to the code by the regenerated object-graph inventory and by differential runs of second connections against fresh objects after every kind of abnormal ending. Partial.",
+ "C17": ("In the model connect() replaces the whole per-connection record, so the theorem holds by construction; its content -- nothing mutable survives connect() -- is tied to the code by the regenerated object-graph inventory and by differential runs of second connections against fresh objects after every kind of abnormal ending (including an abandoned iterator that is released only by the next connect(): finding KF-I, repaired). Partial.",
          "regenerated inventory obligation + differential testing (second connection vs fresh object)"),
  "C18": ("No-stall theorem on the transport model (the loop blocks only when the TLS pending buffer and the kernel queue are both empty; everything available is handed to feed before blocking); the real loop and the real SelectorBase.wait over a simulated kernel/TLS layer on a virtual clock, plus real loopback TCP and TLS runs. Partial: kernel and TLS are modelled.",
          "Coq proof over the transport model + virtual-clock correspondence + real-socket tests"),
